@@ -561,6 +561,14 @@ def inner_vec():
     return Static("innerV", [("a", N, lambda a, r: (a[0][0] + 2.0 * a[0][1], _f(1.0)))], lambda a, r: r[0] + a[0][0], (jnp.asarray([0.4, -0.3], jnp.float32),))
 
 
+def k_scanned_site():
+    """kernel (carry, x) -> (carry', out) with one site that depends ONLY on the scanned input and one only on the carry:
+    z ~ normal(x, 1) @ "z"; c ~ normal(carry, 1) @ "c"; carry' = c, out = z + c"""
+    N = Dist("normal")
+    return Static("kernX", [("z", N, lambda a, r: (a[1], _f(1.0))), ("c", N, lambda a, r: (a[0], _f(1.0)))],
+                  lambda a, r: (r[1], r[0] + r[1]), (_f(0.2), _f(0.7)))
+
+
 def k_nested():
     """kernel (carry, x) -> (carry', out) whose SECOND address is a nested static call: a ~ normal(carry, 1) @ "a";
     b = inner1(a + x) @ "b"   (key derivations of nested calls inside a scan)"""
@@ -622,6 +630,7 @@ def catalogue(tier="quick"):
         "mix(inner1,inner2)": lambda: Mix(inner1(), inner2()),
         "composed": composed,
         "scan(kernN)": lambda: Scan(k_nested(), 3),
+        "scan(kernX)": lambda: Scan(k_scanned_site(), 3),
         "static(vmap3;y)": static_vmap3_then_site,
         "static(vmapdist3;y)": static_vmapdist3_then_site,
         "static(dimap;w)": static_dimap_then_site,
